@@ -58,6 +58,9 @@ MInit(h) ==
     sigq    |-> {},                                    \* who was in the condition's list when the current signal began
     preds   |-> {},                                    \* predicate evaluations of the current condition-signal batch [p, v]
     cgrants |-> {},                                    \* processes granted in the current batch
+    cburst  |-> {},                                    \* [p, pr, since]: waiters resumed by the latest evaluation pass of the condition, not back yet
+    cseen   |-> {},                                    \* waiters whose predicate that pass has evaluated
+    cfresh  |-> TRUE,                                  \* the next predicate evaluation starts a new pass
     csub    |-> {},                                    \* guards the condition is subscribed to
     rec     |-> [o \in Guards |-> [on |-> FALSE, t0 |-> 0, traj |-> <<>>, phase |-> "idle"]],   \* idle -> on -> stopped -> closed
     gone    |-> {},                                    \* <<guard, process>> taken out of the condition's list since the last operation
@@ -94,6 +97,7 @@ EndProc(m, q, how, val, t) ==
                       \* a buffer call cut short by the end of its process keeps what it had transferred so far
                       !.level = IF m.blk[q].op = "bput" /\ m.snap.t >= 0 THEN @ + (m.blk[q].a[1] - m.snap.amnt[q])
                                 ELSE IF m.blk[q].op = "bget" /\ m.snap.t >= 0 THEN @ - m.snap.amnt[q] ELSE @,
+                      !.cburst = {x \in @ : x.p # q},
                       !.gq = [g \in Guards |-> {x \in @[g] : x.p # q}]]
   IN [m1 EXCEPT !.causes = [p \in Procs(m) |-> IF p \in waiters
                                 THEN CauseAdd(m1.causes[p], "procend", sig, t)
@@ -221,7 +225,17 @@ OnRet(m, e) ==
             ELSE m5
       (* -------- C13: a condition wait returns success only if granted by a signal in this instant *)
       badCond == c.op = "cwait" /\ sig = SUCCESS /\ p \notin m.cgrants
-      m7 == IF c.op = "cwait" THEN [m6 EXCEPT !.cgrants = @ \ {p}] ELSE m6
+      (* -------- C06 for a condition: of the waiters that one evaluation pass resumed together, none that is still on  *)
+      (* its way back has a higher priority, or the same priority and a longer wait, than the one returning now          *)
+      mine == {x \in m.cburst : x.p = p}
+      badCOrd == c.op = "cwait" /\ sig = SUCCESS /\
+                 \E x \in mine : \E y \in m.cburst :
+                    /\ y.p # p /\ m.st[y.p] = "alive" /\ m.blk[y.p].op = "cwait"
+                    \* by the priorities when they were resumed and also by the priorities now (a priority changed in
+                    \* between may or may not move the pending wake-up: either is accepted)
+                    /\ (y.pr > x.pr \/ (y.pr = x.pr /\ y.since < x.since))
+                    /\ (m.prio[y.p] > m.prio[p] \/ (m.prio[y.p] = m.prio[p] /\ y.since < x.since))
+      m7 == IF c.op = "cwait" THEN [m6 EXCEPT !.cgrants = @ \ {p}, !.cburst = @ \ mine] ELSE m6
   IN
   IF c.op = "none" THEN [m |-> m, bad |-> Bad("C09", "return-from-a-call-that-was-not-pending")]
   ELSE [m |-> m7,
@@ -233,7 +247,8 @@ OnRet(m, e) ==
            \cup (IF badBuf THEN Bad("C11", "reported-amount-inconsistent") ELSE {})
            \cup (IF badOq THEN Bad("C12", "object-queue-delivery-wrong") ELSE {})
            \cup (IF badPq THEN Bad("C12", "priority-queue-delivery-wrong") ELSE {})
-           \cup (IF badCond THEN Bad("C13", "condition-wait-succeeded-without-true-predicate-at-signal") ELSE {})]
+           \cup (IF badCond THEN Bad("C13", "condition-wait-succeeded-without-true-predicate-at-signal") ELSE {})
+           \cup (IF badCOrd THEN Bad("C06", "condition-waiter-resumed-ahead-of-higher-priority-or-earlier-waiter") ELSE {})]
 
 (* ---------------------------------------------------------------------- *)
 (* non-blocking operations                                                *)
@@ -451,16 +466,24 @@ Core(m, e) ==
          LET S == m.gq[e.g]
              me == {x \in S : x.p = e.p}
          IN IF e.all = 1
-              THEN [m |-> [m EXCEPT !.gq[e.g] = S \ me, !.cgrants = @ \cup {e.p}],
+              THEN [m |-> [m EXCEPT !.gq[e.g] = S \ me, !.cgrants = @ \cup {e.p},
+                                    !.cburst = @ \cup {[p |-> x.p, pr |-> x.pr, since |-> x.since] : x \in me}],
                     bad |-> IF [p |-> e.p, v |-> TRUE] \notin m.preds THEN Bad("C13", "waiter-with-false-predicate-resumed") ELSE {}]
-              ELSE [m |-> [m EXCEPT !.gq[e.g] = S \ me, !.cgrants = IF e.g = GCOND THEN @ \cup {e.p} ELSE @],
+              ELSE [m |-> [m EXCEPT !.gq[e.g] = S \ me, !.cgrants = IF e.g = GCOND THEN @ \cup {e.p} ELSE @,
+                                    !.cburst = IF e.g = GCOND THEN {} ELSE @, !.cseen = IF e.g = GCOND THEN {} ELSE @],
                     bad |-> IF me # {} /\ ~IsBest(S, CHOOSE x \in me : TRUE)
                               THEN Bad("C06", "waiter-served-ahead-of-higher-priority-or-earlier-waiter") ELSE {}]
     [] e.e \in {"GuardCancel", "GuardRemove"} ->
-         [m |-> [m EXCEPT !.gq[e.g] = {x \in @ : x.p # e.p}, !.gone = IF e.g = GCOND THEN @ \cup {<<e.g, e.p>>} ELSE @], bad |-> {}]
+         [m |-> [m EXCEPT !.gq[e.g] = {x \in @ : x.p # e.p}, !.gone = IF e.g = GCOND THEN @ \cup {<<e.g, e.p>>} ELSE @,
+                          !.cburst = IF e.g = GCOND THEN {x \in @ : x.p # e.p} ELSE @], bad |-> {}]
     [] e.e = "GuardLeave" -> [m |-> [m EXCEPT !.gq[e.g] = {x \in @ : x.p # e.p}], bad |-> {}]
-    [] e.e = "Pred" -> [m |-> [m EXCEPT !.preds = @ \cup {[p |-> e.p, v |-> e.v]}], bad |-> {}]
-    [] e.e \in {"CSigBegin", "FwdBegin"} -> [m |-> [m EXCEPT !.preds = {}, !.truths = {}, !.sigq = {x.p : x \in m.gq[GCOND]}], bad |-> {}]
+    [] e.e = "Pred" ->
+         LET newpass == m.cfresh \/ e.p \in m.cseen IN      \* one pass evaluates each waiter once
+         [m |-> [m EXCEPT !.preds = @ \cup {[p |-> e.p, v |-> e.v]},
+                          !.cburst = IF newpass THEN {} ELSE @, !.cseen = IF newpass THEN {e.p} ELSE @ \cup {e.p}, !.cfresh = FALSE],
+          bad |-> {}]
+    [] e.e \in {"CSigBegin", "FwdBegin"} ->
+         [m |-> [m EXCEPT !.preds = {}, !.truths = {}, !.sigq = {x.p : x \in m.gq[GCOND]}, !.cfresh = TRUE], bad |-> {}]
     [] e.e = "Truth" -> [m |-> [m EXCEPT !.truths = @ \cup {[p |-> e.p, v |-> e.v]}], bad |-> {}]
     [] e.e = "Snap" -> OnSnap(m, e)
     [] e.e = "Hist" -> OnHist(m, e)
@@ -479,6 +502,7 @@ MStep(m, e) ==
              ELSE r.m.actor
       boundary == e.e \in {"Call", "Ret", "Do", "Disp"}
   IN [m |-> [r.m EXCEPT !.actor = act, !.gone = IF boundary THEN {} ELSE @, !.preds = IF boundary THEN {} ELSE @,
+                        !.cfresh = IF boundary THEN TRUE ELSE @,
                         !.truths = IF boundary THEN {} ELSE @],
       bad |-> adv.bad \cup r.bad]
 =============================================================================
